@@ -10,6 +10,6 @@ PROPS["C11"] = {
     "assumptions": ["project() in checks/ix_filter.hpp is written from the property statement; truthiness and equals-true follow the library's documented as<bool>()/== true",
                     "memory compared only when the filtered run consumed no more input than the unfiltered one (counting reader)"],
     "quick": [dict(_C11, args=["--input-nodes=3", "--filter-nodes=3", "--malformed-len=3"])],
-    "thorough": [dict(_C11, args=["--input-nodes=4", "--filter-nodes=3", "--malformed-len=4"])],
+    "thorough": [dict(_C11, args=["--input-nodes=3", "--big-input-nodes=4", "--filter-nodes=3", "--malformed-len=4"])],
     "thorough_deadline": 1800,
 }
